@@ -22,7 +22,8 @@ reg(Prop(
          ' variant::dynamic_cast_ is judged against the documented first-successful-cast rule (type lists in which several types fit the object, dynamic_fun and dynamic_cross_fun, identity of the referenced object). either::loop additionally runs 1e3, 5e4 and 4e5 (thorough 4e6) successes before the failure.'
          ' either::sequence_error: result and the calls made (f(x_1) .. f(x_i), x_i the first failure) as documented.'
          ' first_success over std::function objects with inner state, called twice over the same container.'
-         ' monad::chain judged against bind(bind(m, l_1), l_2) with steps of one type (values and call order), three steps on either.',
+         ' monad::chain judged against bind(bind(m, l_1), l_2) with steps of one type (values and call order), three steps on either.'
+         ' monad::do_ judged with std::string values: three steps that read all earlier values, nothing at every step.',
     assumptions=COMMON_ASSUMPTIONS + [
         'the finite domain is what is claimed; the step to all types rests on parametricity of the templates, which an '
         'execution does not show',
